@@ -23,7 +23,7 @@ func init() {
 	register(&Property{
 		ID:    "C03",
 		Level: "other",
-		Explanation: "Decided clauses of the host/domain/SRV grammar: (R1) error shape: by the error-shape analysis the three name validators return only nil or *AddrError and the four " +
+		Explanation: "Decided exactly by abstract evaluation into BDDs (no execution): each of the six label validators accepts exactly the labels of its grammar, for labels of arbitrary bytes and bounded length (both sides of every window, and far beyond 63). Decided clauses of the name-level grammar (and the fall-back of the above): (R1) error shape: by the error-shape analysis the three name validators return only nil or *AddrError and the four " +
 			"label validators only nil or *LabelError; the wrapper is a deferred makeAddrError/makeLabelError call registered first, whose text argument is the function's parameter itself (the " +
 			"original input, not the reassigned ToASCII result); (R2) length windows: at every accepting exit the relational interpreter proves lo <= len <= hi and at every *LengthError rejection " +
 			"len < lo or len > hi, with [lo,hi] = [1,63] (domain and host label), [2,16] (service label), [1,253] (ToASCII form of a name) taken from the property; (R3) rune classes: " +
@@ -31,7 +31,7 @@ func init() {
 			"(evaluated at every comparison threshold); (R4) layering: the decision skeletons contain the required atoms (domain-label checks inside the host label, outer/inner rune tests at first, " +
 			"middle and last position, '_' + host label for service labels, ToASCII/empty/253 prelude, per-label loop over Cut(\".\"), strict TLD on the last label). " +
 			"Not decided: that the composition accepts exactly the RFC language for IDN input (depends on idna.ToASCII).",
-		Technique: "error-shape abstract interpretation, linear-constraint abstract interpretation with asserted windows, BDD equality of rune predicates, decision-skeleton atom requirements",
+		Technique: "exact abstract evaluation of the six label validators into ROBDDs (all labels of bounded length, arbitrary bytes, compared with the grammar) + error-shape abstract interpretation, linear-constraint abstract interpretation with asserted windows, BDD equality of rune predicates, decision-skeleton atom requirements and label-iteration rules for the name validators",
 		Note:      "Trusted: go/ssa, /verif/sa/{errshape,lincon,boolfn,skel}, idna.ToASCII as an opaque function.",
 		DesignRef: "DESIGN.md section 4, C03",
 		Run:       runC03,
